@@ -231,3 +231,29 @@ CASES = [
       ("        self.last_linprog_n_hs = n_hs\n        self.last_linprog_result = (\n            Q,\n            lambda_vec,\n            self.eval_gap(Q, lambda_vec, nu),\n        )\n",
        "        self.last_linprog_result = (\n            Q,\n            lambda_vec,\n            self.eval_gap(Q, lambda_vec, nu),\n        )\n        self.last_linprog_n_hs = len(self.hs)\n"), file=LG),
 ]
+
+QEG = "            Q_EG = Qsum / Qsum.sum()\n"
+LEG = "            lambda_EG = self.lambda_vecs_EG_.mean(axis=1)\n"
+PJ = "        if self.opt_lambda:\n            lambda_vec = self.constraints.project_lambda(lambda_vec)\n\n"
+LEXP2 = "        L = error + np.sum(lambda_vec * (gamma - self.constraints.bound()))\n\n"
+
+CASES += [
+    # ---- lifted since L1: Qs holds fresh objects, lambda_EG aggregation, idxmin, projection order ------------ refactors
+    R("r-qeg-div-method", "Q_EG = Qsum.div(Qsum.sum())", (QEG, "            Q_EG = Qsum.div(Qsum.sum())\n"),
+      expect="refused", why="`.div` is not one of the translated arithmetic shapes of Q_EG (the expression itself is lifted as qNorm)"),
+    R("r-qeg-total-temp", "temporary for Qsum.sum()", (QEG, "            total = Qsum.sum()\n            Q_EG = Qsum / total\n")),
+    R("r-leg-axis-positional", "lambda_vecs_EG_.mean(1)", (LEG, "            lambda_EG = self.lambda_vecs_EG_.mean(1)\n")),
+    R("r-gamma-before-bump", "gamma read before the Qsum bump (independent statements)",
+      ("            Qsum[h_idx] += 1.0\n            gamma = lagrangian.gammas[h_idx]\n", "            gamma = lagrangian.gammas[h_idx]\n            Qsum[h_idx] += 1.0\n")),
+    # ------------------------------------------------------------------ semantic edits
+    S("s-qeg-inplace", "Q_EG normalised in place after the rebinding (the appended object is mutated later)",
+      (QEG, QEG + "            Q_EG *= 1.0\n")),
+    S("s-qeg-alias", "Q_EG aliases Qsum and is normalised in place (every EG entry of Qs is one object)",
+      (QEG, "            Q_EG = Qsum\n")),
+    S("s-qeg-item-store", "an entry of Q_EG overwritten after it was built", (QEG, QEG + "            Q_EG[h_idx] = Q_EG[h_idx]\n")),
+    S("s-leg-sum", "lambda_EG = column SUM", (LEG, LEG.replace(".mean(axis=1)", ".sum(axis=1)"))),
+    S("s-leg-axis0", "lambda_EG = mean over the other axis", (LEG, LEG.replace("axis=1", "axis=0"))),
+    S("s-idxmax", "best_h takes the stored classifier with the LARGEST value", ("            best_idx = values.idxmin()\n", "            best_idx = values.idxmax()\n"), file=LG),
+    S("s-project-after-L", "_eval projects the multiplier AFTER computing L", (PJ + LEXP2, LEXP2 + PJ), file=LG),
+    S("s-lastgap-zero", "last_gap starts at 0", ("        last_gap = np.inf\n", "        last_gap = 0.0\n")),
+]
